@@ -55,6 +55,28 @@ type tapListener struct {
 	last     map[int64]string
 	accepted int
 	failWith error // when set, the next Accept fails with this error (once)
+	// limit > 0: at most that many accepted connections may be open at a time (like
+	// netutil.LimitListener): Accept waits for one to be closed before taking another
+	limit int
+	open  int
+	room  *sync.Cond
+}
+
+// countedConn tells the tap when the connection is closed (once).
+type countedConn struct {
+	net.Conn
+	t    *tapListener
+	once sync.Once
+}
+
+func (c *countedConn) Close() error {
+	c.once.Do(func() {
+		c.t.mu.Lock()
+		c.t.open--
+		c.t.room.Broadcast()
+		c.t.mu.Unlock()
+	})
+	return c.Conn.Close()
 }
 
 func (t *tapListener) Accept() (net.Conn, error) {
@@ -65,10 +87,19 @@ func (t *tapListener) Accept() (net.Conn, error) {
 		t.mu.Unlock()
 		return nil, err
 	}
+	if t.limit > 0 {
+		for t.open >= t.limit {
+			t.room.Wait()
+		}
+	}
 	t.mu.Unlock()
 	c, err := t.Listener.Accept()
 	if err == nil {
 		t.mu.Lock()
+		if t.limit > 0 {
+			t.open++
+			c = &countedConn{Conn: c, t: t}
+		}
 		t.accepted++
 		// (bookkeeping only: the connection itself is handed on untouched)
 		t.last[goid()] = fmt.Sprintf("%s#%d", c.RemoteAddr().String(), t.accepted)
@@ -110,6 +141,8 @@ type RigConfig struct {
 	FetchFn   protocol.FetchCredsFn
 	GenFn     protocol.GenerateServerCertificatesFn
 	Manual    bool // do not start accept loops (the caller drives Accept, e.g. a SplitListener)
+	// MaxOpen > 0: the base listener admits at most that many open connections at a time
+	MaxOpen int
 }
 
 // Rig is a loopback listener with the intercepting listener on top and accept
@@ -154,7 +187,8 @@ func NewRig(w *World, cfg RigConfig) *Rig {
 	if err != nil {
 		panic(fmt.Sprintf("listen: %v", err))
 	}
-	r.tap = &tapListener{Listener: base, last: map[int64]string{}}
+	r.tap = &tapListener{Listener: base, last: map[int64]string{}, limit: cfg.MaxOpen}
+	r.tap.room = sync.NewCond(&r.tap.mu)
 	opts := cfg.Options
 	if opts == nil {
 		opts = w.O()
